@@ -33,6 +33,7 @@ pub fn op(seek_weight: u32) -> BoxedStrategy<Op> {
         seek_weight => any::<u16>().prop_map(Op::Seek),
         seek_weight / 3 + 1 => any::<u16>().prop_map(Op::SeekSeen),
         1 => Just(Op::IntoRecords),
+        1 => (0u8..3).prop_map(Op::ShrinkSet),
     ]
     .boxed()
 }
